@@ -5,12 +5,14 @@ sys.path.insert(0, os.path.join(os.path.dirname(os.path.abspath(__file__)), ".."
 from vlib import *
 
 
-def life_cfg(gen, att, mon, sig, seq, iw=1, mw=3, start_atomic="TRUE"):
+def life_cfg(gen, att, mon, sig, seq, iw=1, mw=3, start_atomic="TRUE", closefail=None):
+    # a failing underlying Close() is explored in Sequential mode (user Close at quiescence); in the fully concurrent
+    # mode it races the end of the stream, a corner outside C15's fault list (DESIGN 5.C15)
     return ('SPECIFICATION Spec\nCONSTANTS MaxGen = %d MaxAttempts = %d InitialWait = %d MaxWait = %d WithMonitor = %s '
-            'CloseSignal = "%s" Sequential = %s AllowCloseFail = FALSE StartAtomic = %s\n'
+            'CloseSignal = "%s" Sequential = %s AllowCloseFail = %s StartAtomic = %s\n'
             'INVARIANTS FailureDetected OpenHasReader NoStaleReader OneCause ClosedHasCause CauseNilIffClean NoSpuriousClose '
             'AttemptsBounded WaitBounded MonitorToldEveryClose QuietMatch\nPROPERTIES CloseReturns\nCHECK_DEADLOCK FALSE\n'
-            % (gen, att, iw, mw, mon, sig, seq, start_atomic))
+            % (gen, att, iw, mw, mon, sig, seq, closefail or seq, start_atomic))
 
 
 def abs_cfg(gen, att, mon, iw=1, mw=3):
